@@ -302,6 +302,24 @@ class BlackbirdProgram:
 
         kwargs = new_kwargs
 
+        def substitute_elements(value):
+            """Substitute the parameters among the elements of a list or array argument"""
+            populated = copy.deepcopy(value)
+            elements = populated.flat if isinstance(populated, np.ndarray) else populated
+            for idx in range(len(elements)):
+                a = elements[idx]
+                if isinstance(a, sym.Expr):
+                    par = list(a.free_symbols)
+                    func = sym.lambdify(par, a)
+
+                    try:
+                        vals = {str(p): kwargs[str(p)] for p in par}
+                    except KeyError:
+                        raise ValueError("Invalid value for free parameter provided")
+
+                    elements[idx] = func(**vals)
+            return populated
+
         # set values for args and kwargs in operations
         for op in prog._operations: # pylint: disable=protected-access
             if 'args' not in op:
@@ -319,6 +337,9 @@ class BlackbirdProgram:
 
                     op['args'][idx] = func(**vals)
 
+                elif isinstance(a, list) or (isinstance(a, np.ndarray) and a.dtype == object):
+                    op['args'][idx] = substitute_elements(a)
+
             for k, v in op['kwargs'].items():
                 if isinstance(v, sym.Expr):
                     par = list(v.free_symbols)
@@ -330,6 +351,9 @@ class BlackbirdProgram:
                         raise ValueError("Invalid value for free parameter provided")
 
                     op['kwargs'][k] = func(**vals)
+
+                elif isinstance(v, list) or (isinstance(v, np.ndarray) and v.dtype == object):
+                    op['kwargs'][k] = substitute_elements(v)
 
         # set values for variables and arrays
         for k, v in prog._var.items(): # pylint: disable=protected-access
